@@ -40,8 +40,8 @@ def compare(prog, pred, events):
     if ret is None or ret.get("ok") != 1:
         return "run did not return normally: %s" % (ret,)
     for i in sorted(set(pw) | set(writes)):
-        if i <= len(prog["nodes"]) and prog["nodes"][i - 1]["kind"] == "fb":
-            continue  # the feedback source is a library node: its stream is observed through its readers
+        if i <= len(prog["nodes"]) and prog["nodes"][i - 1]["kind"] in ("fb", "ite"):
+            continue  # feedback sources / reference selectors are library nodes: observed through their readers
         a, b = pw.get(i, []), writes.get(i, [])
         if a != b:
             kind = prog["nodes"][i - 1]["kind"] if i <= len(prog["nodes"]) else "?"
